@@ -365,6 +365,7 @@ import faults  # noqa: E402
 
 PROPS["C20"] = {"level": "fault_enumeration", "run": faults.c20, "design": "C20"}
 PROPS["C22"] = {"level": "exploration", "run": faults.c22, "design": "C22"}
+PROPS["C21"] = {"level": "fault_enumeration", "run": faults.c21, "design": "C21"}
 
 PROPS["C23"] = {"level": "exploration", "run": detcheck.c23, "design": "C23"}
 
